@@ -165,8 +165,8 @@ theorem C10_composite_run (p : Program) (hchk : PlanCheck.checkProgU p = true)
     cases hrun
     rfl
   · intro fs hsrc hwt
-    have key : ∃ nv n1, evalConv p fuel { self := m, ctx := [], idx := [], keys := [], parent := none }
-          (.structc plans upd) src old 0 = .ok (nv, n1) ∧ r = .ptr l nv := by
+    have key : ∃ nv n1, evalConv p fuel { self := m, ctx := [], idx := [], keys := [], parent := updParent srcIsPtr src }
+          (.structc plans upd) (updSource srcIsPtr src) old 0 = .ok (nv, n1) ∧ r = .ptr l nv := by
       rcases hsrc with rfl | ⟨l', rfl⟩
       all_goals
         simp only [Bool.false_eq_true, and_false, if_false] at hrun
@@ -176,7 +176,13 @@ theorem C10_composite_run (p : Program) (hchk : PlanCheck.checkProgU p = true)
         · cases hrun
         · cases hrun
     obtain ⟨nv, n1, hc, hr⟩ := key
-    obtain ⟨ws, hv', hall⟩ := C10_composite p hchk m gm srcIsPtr plans upd hm hb s t htys sfs tfs hs ht src fs hsrc hwt old hold
+    have hsrc' : updSource srcIsPtr src = .struct fs ∨ ∃ l', updSource srcIsPtr src = .ptr l' (.struct fs) := by
+      rcases hsrc with rfl | ⟨l', rfl⟩
+      · left; cases srcIsPtr <;> rfl
+      · cases srcIsPtr
+        · right; exact ⟨l', rfl⟩
+        · left; rfl
+    obtain ⟨ws, hv', hall⟩ := C10_composite p hchk m gm srcIsPtr plans upd hm hb s t htys sfs tfs hs ht (updSource srcIsPtr src) fs hsrc' hwt old hold
       fuel _ 0 nv n1 hc
     subst hv'
     exact ⟨ws, hr, hall⟩
@@ -217,7 +223,7 @@ example : UpdTypes uProgram uMethod false (.struct uFields) (.struct uFields) :=
 example : runMethod uProgram 0 [uSrc, .ptr (.src 7) uOld] 10 = .ok (.ptr (.src 7) uNew) := by
   unfold runMethod
   simp [uProgram, uMethod, uPlans, uSrc, uOld, uNew, evalConv, evalFields, walk, fieldOf, setField, normStruct,
-    Val.isAbsent, isZeroVal, pure, StateT.pure, List.lookup, List.zip, List.find?]
+    Val.isAbsent, isZeroVal, pure, StateT.pure, List.lookup, List.zip, List.find?, updSource, updParent]
 
 open Gv.Typing in
 example : WT uProgram.conv.env uSrc (.struct uFields) :=
@@ -250,7 +256,7 @@ example : UpdTypes uProgramP uMethodP true (.struct uFields) (.struct uFields) :
 example : runMethod uProgramP 0 [.ptr (.src 3) uSrc, .ptr (.src 7) uOld] 10 = .ok (.ptr (.src 7) uNew) := by
   unfold runMethod
   simp [uProgramP, uProgram, uMethodP, uMethod, uPlans, uSrc, uOld, uNew, evalConv, evalFields, walk, fieldOf, setField,
-    normStruct, Val.isAbsent, isZeroVal, pure, StateT.pure, List.lookup, List.zip, List.find?]
+    normStruct, Val.isAbsent, isZeroVal, pure, StateT.pure, List.lookup, List.zip, List.find?, updSource, updParent]
 
 example : runMethod uProgramP 0 [.nil, .ptr (.src 7) uOld] 10 = .ok (.ptr (.src 7) uOld) := by
   unfold runMethod
